@@ -1352,6 +1352,71 @@ CHECKS = {"identity": identity_check, "requery": requery_check, "reiter": reiter
           "cyclic": cyclic_check, "rescan": rescan_check}
 
 
+# ---------------- C04: a has-predicate is a function of the candidate as it is now ----------------
+
+def has_again_check(sc):
+    """the same has(...) object applied to the same Match again — after the document was edited in between, or
+    after it raised — answers (or raises) like a freshly built predicate on a freshly found Match"""
+    from treepath import has, has_not, has_all, has_any, set_
+    import operator as _op
+    doc = dec(sc["doc"])
+    b = Builder([])
+
+    def build():
+        return Builder([]).pred(sc["pred"])
+    h = build()
+    cand = b.steps(sc["cand"])
+    m = get_match(cand, doc, must_match=False)
+    if m is None:
+        return None, False
+
+    def outcome(pred, match):
+        try:
+            return ("value", bool(pred(match)))
+        except Exception as e:  # noqa
+            return ("raised", tuple(exc_chain(e)))
+    first = outcome(h, m)
+    again = outcome(h, m)
+    if again != first:
+        return f"applied twice to the same Match: {first} then {again}", True
+    for (steps, val) in sc["edits"]:
+        try:
+            set_(Builder([]).steps(sc["cand"] + steps), dec(val), doc)
+        except Exception:  # noqa
+            return None, False
+    after = outcome(h, m)
+    fresh = outcome(build(), get_match(Builder([]).steps(sc["cand"]), doc))
+    if after != fresh:
+        return f"after the document was edited the same has-object says {after} on the same Match, a fresh one {fresh} (before the edit: {first})", True
+    return None, first != after
+
+
+def has_again_oracle(ctx):
+    def make(rng):
+        import gen_mut
+        for _ in range(60):
+            doc = gen.gen_doc(rng)
+            locs = [l for l in gen_mut.locations(doc) if isinstance(gen_mut.node_at(doc, l), dict) and gen_mut.node_at(doc, l)]
+            if not locs:
+                continue
+            loc = rng.choice(locs)
+            c = gen_mut.node_at(doc, loc)
+            key = rng.choice(list(c.keys()))
+            cand = [["k", nm] if isinstance(nm, str) else ["i", nm] for nm in loc]
+            const = rng.choice(gen.SCALARS)
+            arg = rng.choice([["p", [["k", key]]], ["c", [["k", key]], rng.choice(gen.OPS), enc(const)],
+                              ["c", [["k", key]], "eq", enc(c[key]) if not isinstance(c[key], (dict, list)) else enc(1)]])
+            fns = rng.choice([[], [], ["int"], ["len"], ["truth"], ["boom_if_str"]])
+            pred = rng.choice([["has", arg, fns], ["not", arg, fns], ["all", [arg, ["p", [["k", key]]]]], ["any", [arg, ["c", [["k", key]], "eq", enc(const)]]]])
+            edits = [([["k", key]], enc(rng.choice(gen.SCALARS + [[], [1], {}, {"a": 1}])))]
+            return {"doc": enc(doc), "cand": cand, "pred": pred, "edits": edits}
+        return {"doc": enc({"a": {"k": 1}}), "cand": [["k", "a"]], "pred": ["has", ["c", [["k", "k"]], "eq", 1], []], "edits": [([["k", "k"]], 2)]}
+    _run(ctx, "has_again", 600, 12000, make, has_again_check)
+
+
+CHECKS["has_again"] = has_again_check
+
+
 # ---------------- C11 / C16 / C20: a live iterator whose consumer edits what it is handed ----------------
 
 LIVE_ACTIONS = {
